@@ -651,7 +651,7 @@ func lexComment(l *lexer) stateFn {
 			n := l.next()
 			for ; n != '\n' && isSpace(n); n = l.next() {
 			}
-			if n == '/' {
+			if n == '/' && l.peek() == '/' {
 				// We still have more comment lines
 				continue
 			}
